@@ -741,7 +741,7 @@ def NamesIdent : RustItem → Prop
   | .struct s => isIdentifier s.id.renamed = true
   | .enum e => isIdentifier e.id.renamed = true ∧
       ∀ v ∈ e.variants, IdentStr v.id.original
-  | .alias a => isIdentifier a.id.renamed = true   -- (the `typealias` is named after `id.renamed` since b182a80)
+  | .alias a => isIdentifier a.id.renamed = true   -- (the `typealias` is named after `id.renamed` since 0c924cd)
   | .const _ => True
 
 /-- **every name a Kotlin declaration introduces is an identifier** when the item's names are -/
